@@ -21,7 +21,7 @@ import (
 )
 
 func init() {
-	register(&Prop{ID: "C42", Module: "V.C42.Check", Gen: c42Gen, Quick: 36, Thorough: 600, Shard: 10})
+	register(&Prop{ID: "C42", Module: "V.C42.Check", Gen: c42Gen, Quick: 26, Thorough: 500, Shard: 8})
 }
 
 // ---------------------------------------------------------------- Coq printers
